@@ -592,3 +592,23 @@ MUTANTS['C18']['seek-end-rewinds-before-len'] = ([(IO, """            # NB: take
             dest_position = self.len - pos
             self.buffer.seek(0)""", """            self.buffer.seek(0)
             dest_position = self.len - pos""")], 'detect')
+
+MUTANTS['C04']['publish-by-copy2'] = ([(FU, """        if overwrite:
+            os.rename(src, dst)
+        else:
+            os.link(src, dst)
+            os.unlink(src)
+        return
+
+
+_atomic_rename""", """        if overwrite:
+            copy2(src, dst)
+            os.unlink(src)
+        else:
+            os.link(src, dst)
+            os.unlink(src)
+        return
+
+
+_atomic_rename""")], 'detect')
+MUTANTS['C04']['part-file-via-mkstemp'] = ([(FU, "        fd = os.open(self.part_path, self.open_flags, file_perms)", "        import tempfile\n        fd, self.part_path = tempfile.mkstemp(dir=self.dest_dir, prefix='.save-')\n        os.chmod(self.part_path, file_perms & ~os.umask(os.umask(0)))")], 'unjudgeable')
